@@ -269,7 +269,7 @@ func (u *Unit) heapGet(st *State, name string, elem Sort) *Term {
 	st.heap[name] = t
 	u.mapSorts[name] = elem
 	u.linkBase(st, name, t)
-	if st.epoch == 0 && elem == SSlice && strings.HasPrefix(name, "E!") {
+	if st.epoch == 0 && elem == SSlice && (strings.HasPrefix(name, "E!") || strings.HasPrefix(name, "F!")) {
 		// well-formed entry heap: a slice stored in a slice of slices at unit entry
 		// refers to an array that existed then (what a load states for one element,
 		// stated for all so that quantified contracts over s[i][j] can use it)
@@ -461,7 +461,61 @@ func (u *Unit) storeLoc(st *State, mapName string, elem Sort, p *Term, v *Term) 
 }
 
 func fieldMapName(structT types.Type, field string) string {
+	// fields of a generic struct whose type depends on a type parameter get one
+	// map per instance (PooledColumn[ColUInt8].Data and PooledColumn[*ColStr].Data
+	// have different sorts); the other fields share the map of the generic type
+	if n, ok := types.Unalias(structT).(*types.Named); ok && n.TypeArgs().Len() > 0 && n.Origin() != nil {
+		if os, ok := n.Origin().Underlying().(*types.Struct); ok {
+			for i := 0; i < os.NumFields(); i++ {
+				if os.Field(i).Name() == field && mentionsTypeParam(os.Field(i).Type(), 0) {
+					var args []string
+					for j := 0; j < n.TypeArgs().Len(); j++ {
+						args = append(args, typeKey(n.TypeArgs().At(j)))
+					}
+					return "F!" + namedKey(structT) + "[" + strings.Join(args, ",") + "]." + field
+				}
+			}
+		}
+	}
 	return "F!" + namedKey(structT) + "." + field
+}
+
+func mentionsTypeParam(t types.Type, depth int) bool {
+	if depth > 6 {
+		return false
+	}
+	switch tt := types.Unalias(t).(type) {
+	case *types.TypeParam:
+		return true
+	case *types.Pointer:
+		return mentionsTypeParam(tt.Elem(), depth+1)
+	case *types.Slice:
+		return mentionsTypeParam(tt.Elem(), depth+1)
+	case *types.Array:
+		return mentionsTypeParam(tt.Elem(), depth+1)
+	case *types.Map:
+		return mentionsTypeParam(tt.Key(), depth+1) || mentionsTypeParam(tt.Elem(), depth+1)
+	case *types.Chan:
+		return mentionsTypeParam(tt.Elem(), depth+1)
+	case *types.Named:
+		for i := 0; i < tt.TypeArgs().Len(); i++ {
+			if mentionsTypeParam(tt.TypeArgs().At(i), depth+1) {
+				return true
+			}
+		}
+	case *types.Signature:
+		for i := 0; i < tt.Params().Len(); i++ {
+			if mentionsTypeParam(tt.Params().At(i).Type(), depth+1) {
+				return true
+			}
+		}
+		for i := 0; i < tt.Results().Len(); i++ {
+			if mentionsTypeParam(tt.Results().At(i).Type(), depth+1) {
+				return true
+			}
+		}
+	}
+	return false
 }
 func elemMapName(s Sort) string { return "E!" + sanitize(string(s)) }
 
@@ -603,6 +657,18 @@ func (u *Unit) reifyFn(v Val) *Term {
 	if !u.ctx.declared["fnval!nn!"+t.S] {
 		u.ctx.declared["fnval!nn!"+t.S] = true
 		u.ctx.Axiom(Not(Eq(t, NilFn)))
+		// the static function behind the value (for fncalls() in contracts)
+		var fn *ssa.Function
+		switch f := v.(type) {
+		case *ClosureVal:
+			fn = f.Fn
+		case *FnVal:
+			fn = f.Fn
+		}
+		if fn != nil {
+			fs := u.ctx.Func("fnstatic", []Sort{SFn}, SInt)
+			u.ctx.Axiom(Eq(App(SInt, fs, t), IntLit(int64(u.prog.fnID(fn)))))
+		}
 	}
 	return t
 }
